@@ -112,7 +112,7 @@ class Model:
             c.factories[(t, name)] = fac
         return ("ok", None), [(cid, [ftypes], name, desc, True)]
 
-    def lookup(self, cid: int, t: int, name: str, optional: bool, sync_api: bool) -> tuple[Any, list[Any], Any]:
+    def lookup(self, cid: int, t: int, name: str, optional: bool, sync_api: bool, factory_fails: bool = False) -> tuple[Any, list[Any], Any]:
         """returns (outcome, events, generation) - generation = (fid, call#) if a factory must be called"""
         c = self.ctxs[cid]
         key = (t, name)
@@ -125,6 +125,9 @@ class Model:
                 return ("exc", {"AsyncResourceError"}), [], (f.fid, None)
             n = c.gen_calls.get(f.fid, 0) + 1
             c.gen_calls[f.fid] = n
+            if factory_fails:
+                # the factory is called and raises: its exception reaches the caller, nothing is registered or announced
+                return ("exc", {"FactoryFailed"}), [], (f.fid, n)
             tag = ("gen", f.fid, cid, n)
             free = tuple(tt for tt in f.types if (tt, f.name) not in c.resources)
             res = MRes(tag, free, f.name, f.desc, generated=True)
